@@ -165,3 +165,27 @@ package scheduler
 //@   loop 3
 //@     invariant s != nil && s.timer != nil && s.time != nil && s.priorityQueue != nil
 //@     invariant s.timer == before(s.timer) && gf(s.timer, resets, int) >= before(gf(s.timer, resets, int))
+
+// ---------------------------------------------------------------- the worker (C17)
+// "the last-scheduled checkpoint only moves forward": a worker takes the occurrences of a task in
+// order, and the checkpoint of one occurrence is written -- with that occurrence's id and time --
+// before the worker takes the next one. Written in the worker itself, synchronously: a checkpoint
+// handed to another goroutine can land after the next occurrence's.
+// Specification-only counter on the checkpointer: every UpdateLastScheduled adds one.
+//@ func (SchedulableService).UpdateLastScheduled
+//@   trusted
+//@   modifies gfi(recv, checkpoints, int)
+//@   ensures gfi(recv, checkpoints, int) == old(gfi(recv, checkpoints, int)) + 1
+//@ func (*TreeScheduler).work$2
+//@   trusted
+//@   modifies nothing
+//@ func (*TreeScheduler).work$1
+//@   trusted
+//@   modifies nothing
+//@ func (*TreeScheduler).work
+//@   props C17
+//@   requires s != nil && s.checkpointer != nil && s.onErr != nil
+//@   guardcall UpdateLastScheduled#1: arg1 == it.id && arg2 == time.Unix(it.next, 0)
+//@   loop 1
+//@     invariant s != nil && s.checkpointer != nil && s.onErr != nil
+//@     transition s.checkpointer == prev(s.checkpointer) && gfi(s.checkpointer, checkpoints, int) == prev(gfi(s.checkpointer, checkpoints, int)) + 1
